@@ -77,7 +77,9 @@ static inline int remove_node(m_bst_t *l, bst_node **elem) {
          * (smallest in the right subtree)
          */
         bst_node **tmp = find_min_subtree(&node->right);
-        node->userptr = (*tmp)->userptr; // switch userdata
+        void *removed = node->userptr;
+        node->userptr = (*tmp)->userptr; // switch userdata: successor survives in this node...
+        (*tmp)->userptr = removed;       // ...and the removed element goes away (and gets destroyed) with the successor's node
         return remove_node(l, tmp); // remove useless left-most node in the right subtree
     }
     return -ENOENT;
